@@ -156,6 +156,7 @@ pub fn check(v: &View, vd: &mut Verdict) {
         }
     }
     super::c01::order(v, vd, "C13");
+    super::c04::abandoned_accepted(v, vd, "C13");
     // an explicit stop terminates it (and is a barrier) even if the stream never ends
     // (only when the stream did not end: the end of the stream terminates the actor on its own)
     let stream_over = v.hist.iter().any(|e| matches!(e.kind, EvKind::StreamEnded { .. })) || v.client_ops().any(|o| o.what == OpWhat::EndStream);
